@@ -206,6 +206,44 @@ theorem parseDec64_fmtDec (i : Int) (hlo : -(2 ^ 63 : Int) ≤ i) (hhi : i < (2 
       · simp only [hp, hlt, if_true]
         congr 1; omega
 
+/-- where ParseInt succeeds, the value it returns is the parsed number -/
+theorem parseDecVal_of_parse {s : Str} {i : Int} (h : parseDec64 s = some i) : parseDecVal s = i := by
+  unfold parseDec64 at h
+  unfold parseDecVal
+  split at h
+  · rename_i r
+    cases hp : parseNat 10 r with
+    | none => simp [hp] at h
+    | some n =>
+      simp only [hp] at h ⊢
+      split at h
+      · rename_i hle
+        simp at h
+        have : ¬ n > 2 ^ 63 := by omega
+        simp [this, h]
+      · simp at h
+  · rename_i r
+    cases hp : parseNat 10 r with
+    | none => simp [hp] at h
+    | some n =>
+      simp only [hp] at h ⊢
+      split at h
+      · rename_i hlt
+        simp at h
+        have : ¬ n ≥ 2 ^ 63 := by omega
+        simp [this, h]
+      · simp at h
+  · cases hp : parseNat 10 s with
+    | none => simp [hp] at h
+    | some n =>
+      simp only [hp] at h ⊢
+      split at h
+      · rename_i hlt
+        simp at h
+        have hge : ¬ n ≥ 2 ^ 63 := by omega
+        simp [hge, h]
+      · simp at h
+
 theorem fmtNat_unreserved {b : Nat} (hb2 : 2 ≤ b) (hb : b ≤ 10) (n : Nat) :
     ∀ c ∈ fmtNat b n, isUnreserved c = true := by
   intro c hc
@@ -405,7 +443,7 @@ theorem metaFromQuery_params (mode : Nat) (mt : Option (Int × Nat)) (hv : Valid
     obtain ⟨s, n⟩ := sn
     obtain ⟨hn, hlo, hhi, hz⟩ := hmt
     have hs := parseDec64_fmtDec s hlo hhi
-    have hnn := parseDec64_fmtDec (n : Int) (by omega) (by omega)
+    have hnn := parseDecVal_of_parse (parseDec64_fmtDec (n : Int) (by omega) (by omega))
     have hmk := mkTime_valid hn hz
     by_cases h0 : mode = 0 <;> by_cases hn0 : n > 0
     · subst h0
@@ -431,8 +469,8 @@ theorem params_nil {mode : Nat} {mt : Option (Int × Nat)} (h : params mode mt =
   | some sn => obtain ⟨s, n⟩ := sn; simp at h
 
 theorem fileInfo_written (mode : Nat) (mt : Option (Int × Nat)) (hv : ValidMeta mode mt)
-    (stack : List Str) (name : Str) (ct : CType) (body : Str) :
-    fileInfo true (mkPart true stack name mode mt ct body) = some ⟨mode, mt⟩ := by
+    (stack : List Str) (name : Str) (ct : CType) (body : Str) (a : Str) :
+    fileInfo true (mkPart true stack name mode mt ct body a) = some ⟨mode, mt⟩ := by
   unfold fileInfo mkPart formNameOf
   simp only [Bool.not_true, Bool.false_eq_true, if_false, if_true]
   have hfile : '?' ∉ "file".toList := by decide
@@ -447,8 +485,29 @@ theorem fileInfo_written (mode : Nat) (mt : Option (Int × Nat)) (hv : ValidMeta
     rw [metaFromQuery_params mode mt hv]
 
 theorem fileInfo_mixed (fixed : Bool) (mode : Nat) (mt : Option (Int × Nat))
-    (stack : List Str) (name : Str) (ct : CType) (body : Str) :
-    fileInfo fixed (mkPart false stack name mode mt ct body) = some ⟨0, none⟩ := by
+    (stack : List Str) (name : Str) (ct : CType) (body : Str) (a : Str) :
+    fileInfo fixed (mkPart false stack name mode mt ct body a) = some ⟨0, none⟩ := by
   simp [fileInfo, mkPart]
+
+theorem escape_ne_nil {s : Str} (h : s ≠ []) : escape s ≠ [] := by
+  cases s with
+  | nil => exact absurd rfl h
+  | cons c t =>
+    have : escape (c :: t) = escapeChar c ++ escape t := by simp [escape]
+    rw [this]
+    unfold escapeChar
+    split
+    · simp
+    · split <;> simp
+
+/-- the reader recovers the `AbsPath()` the writer sent -/
+theorem absPathOf_mkPart (form : Bool) (stack : List Str) (name : Str) (mode : Nat) (mt : Option (Int × Nat))
+    (ct : CType) (body a : Str) (ha : IsBytes a) :
+    absPathOf (mkPart form stack name mode mt ct body a) = a := by
+  unfold absPathOf mkPart
+  simp only
+  by_cases h : a = []
+  · subst h; simp [escape]
+  · rw [if_pos (escape_ne_nil h), unescape_escape a ha]; rfl
 
 end C39
